@@ -36,7 +36,7 @@ fn check_exactly_once(rep: &mut Report, kind: Kind, idx: u64, bi: usize, batch: 
 fn main() {
     let cli = Cli::parse();
     let mut rep = Report::new("C06", &cli);
-    rep.note("rule", json!("case = BatchSort / BatchVisualSort with distance shards 1..4 x voting shards 1..4 and a sequence of 4..10 batches over 1..5 scenes, under one of the schedules {free, seeded random delay plan over all vote.* / batch.* / store.* schedule points, every voting thread stalled at vote.result.send (bounded(1) back-pressure), predict loop stalled after each batch.scene.dispatched, voting thread stalled at vote.monitor.dec while the next predict already waits on the monitor} and one of the two retrieval disciplines the property allows {same thread after predict; consumer thread started before predict with the next batch submitted while it is still draining}. Monitors: (1) exactly-once: every batch delivers exactly one result per submitted scene, each with one record per detection in order; (2) refinement: per scene the grouping (up to an id bijection built incrementally) and the boxes / epochs / lengths (bit-exact) equal those of Sort / VisualSort run on that scene's sequence of detection lists, in same-thread mode also the stored state of every touched track (histories, gallery multiset, collected count, filter state) and every batch scene call is itself judged by the C02 / C12 references; grouping differences go through the explain-divergence oracle; (3) progress: a quiescence detector (all threads sleeping, no CPU time, no hook event for 4 s) turns a hang of predict / get / Drop into a deadlock violation with the last hook site of every thread. Non-trivial: (case) with >= 2 scenes per batch and >= 2 voting threads or a stalling schedule; distinct by case hash; distinct hook-order signatures are counted."));
+    rep.note("rule", json!("case = BatchSort / BatchVisualSort with distance shards 1..4 x voting shards 1..4 and a sequence of 4..10 batches over 1..5 scenes (an eighth of the cases: wide batches of 8..40 scenes), under one of the schedules {free, seeded random delay plan over all vote.* / batch.* / store.* schedule points, every voting thread stalled at vote.result.send (bounded(1) back-pressure), predict loop stalled after each batch.scene.dispatched, voting thread stalled at vote.monitor.dec while the next predict already waits on the monitor} and one of the two retrieval disciplines the property allows {same thread after predict; consumer thread started before predict with the next batch submitted while it is still draining}. Monitors: (1) exactly-once: every batch delivers exactly one result per submitted scene, each with one record per detection in order; (2) refinement: per scene the grouping (up to an id bijection built incrementally) and the boxes / epochs / lengths (bit-exact) equal those of Sort / VisualSort run on that scene's sequence of detection lists, in same-thread mode also the stored state of every touched track (histories, gallery multiset, collected count, filter state) and every batch scene call is itself judged by the C02 / C12 references; grouping differences go through the explain-divergence oracle; (3) progress: a quiescence detector (all threads sleeping, no CPU time, no hook event for 4 s) turns a hang of predict / get / Drop into a deadlock violation with the last hook site of every thread. Non-trivial: (case) with >= 2 scenes per batch and >= 2 voting threads or a stalling schedule; distinct by case hash; distinct hook-order signatures are counted."));
     rep.note("assumptions", json!(["absence of deadlock is claimed only for the schedules observed (no explicit-state exploration of the monitor/bounded-channel protocol in this family)", "a stall in which threads keep consuming CPU is inconclusive, never a violation"]));
     let ctl = if cli.small { None } else { Some(Controller::install()) };
     let wd = if cli.small { None } else { Some(Watchdog::start(&cli, "C06", ctl.clone())) };
@@ -61,7 +61,13 @@ fn main() {
             cfg.shards = 2;
             cfg.voting_shards = 2;
         }
-        let scenes = if cli.small { 2 } else { 1 + rng.usize(5) };
+        // an eighth of the cases submit wide batches (8..40 scenes each, far more scenes than voting workers), so that
+        // every queue between the predict loop, the voting workers and the bounded(1) result channel is filled
+        let wide = !cli.small && rng.chance(0.125);
+        let scenes = if cli.small { 2 } else if wide { 8 + rng.usize(33) } else { 1 + rng.usize(5) };
+        if wide {
+            rep.count("cases_with_wide_batches(8..40 scenes)");
+        }
         let w = WorldOpts {
             scenes,
             same_region: rng.chance(0.4),
@@ -70,7 +76,7 @@ fn main() {
             features: kind.is_visual(),
             feat_dim: 4,
             duplicates: false,
-            nobj: if cli.small { 2 } else { 1 + rng.usize(5) },
+            nobj: if cli.small { 2 } else if wide { 1 + rng.usize(2) } else { 1 + rng.usize(5) },
             steps: 40,
             low_quality: false,
             avoid_coincident: kind.is_visual() && (cfg.vis.own_use + cfg.vis.own_collect > 0.0),
@@ -83,6 +89,7 @@ fn main() {
         if batches.is_empty() {
             continue;
         }
+        rep.max("max_scenes_in_one_batch", batches.iter().map(|b| b.len()).max().unwrap_or(0) as f64);
         let schedule = if cli.small { "free" } else { *rng.pick(&["free", "delay", "delay", "stall:vote.result.send", "stall:batch.scene.dispatched", "stall:vote.monitor.dec"]) };
         let consumer_thread = rng.chance(0.4);
         let plan_seed = rng.u64();
